@@ -130,7 +130,7 @@ func (w *world) monWrite(ctx context.Context, st *step, keys []string) {
 		st.err = w.mm.DelCache(ctx, keys...)
 	case kWrite, kDelete, kFailExec:
 		st.noMatch = st.mon.findAndModify() && !had && !(st.upsert && st.mon != mFindOneAndDelete)
-		repl := row{ID: ent.id, Name: ent.name}
+		repl := w.rowAt(ent, 0)
 		switch st.mon {
 		case mUpdateMany:
 			st.monGot, st.err = w.mm.UpdateMany(ctx, keys, op, monUpdate)
@@ -173,7 +173,7 @@ func (w *world) checkMonResult(st *step) {
 			bad("returned the deleted count %v, the collection deleted %d", st.monGot, want)
 		}
 	case mFindOneAndDelete, mFindOneAndReplace, mFindOneAndUpdate:
-		if st.monV != st.monBefore {
+		if !sameRow(st.monV, st.monBefore) {
 			bad("decoded %+v, the collection returned the document %+v", st.monV, st.monBefore)
 		}
 	default:
@@ -271,7 +271,7 @@ func (m *monColl) update(ctx context.Context, method monMethod, x any, opts []*m
 	if st.monBefore.Ver != 0 {
 		res.MatchedCount, res.ModifiedCount = 1, 1
 	} else {
-		res.UpsertedCount, res.UpsertedID = 1, st.ent.id
+		res.UpsertedCount, res.UpsertedID = 1, st.ent.pk
 	}
 	if method == mUpdateMany {
 		res.MatchedCount, res.ModifiedCount = int64(len(st.ents())), int64(len(st.ents()))
@@ -341,7 +341,7 @@ func (m *monColl) InsertOne(ctx context.Context, document any, _ ...*mopt.Insert
 	if err != nil {
 		return nil, err
 	}
-	res := &mongo.InsertOneResult{InsertedID: st.ent.id}
+	res := &mongo.InsertOneResult{InsertedID: st.ent.pk}
 	st.monRes = res
 	return res, nil
 }
